@@ -298,12 +298,17 @@ class Statement(object):
 
         if self.code_pkg.additional_needs_resolution:
             if self.operand.is_indexed() and self.operand.left and self.operand.left.is_address_expression():
-                relative_address = self.operand.left.calculate_address_offset(statements).int
+                try:
+                    relative_address = self.operand.left.calculate_address_offset(statements).int
+                except ValueError as error:
+                    raise TranslationError(str(error), self)
             else:
                 relative_address = statements[self.code_pkg.additional.int].code_pkg.address.int
 
             start_address = statements[this_index].code_pkg.address.int
             jump_amount = relative_address - start_address - self.code_pkg.size
+            if self.pcr_size_hint == 2 and not -128 <= jump_amount <= 127:
+                raise TranslationError("program counter relative offset does not fit in 8 bits", self)
             self.code_pkg.additional = NumericValue(jump_amount, size_hint=self.pcr_size_hint)
 
         self.fit_operand_to_reserved_size()
